@@ -272,6 +272,13 @@ func postRun(res *vf.Result, mf MainFinal, scratch string, cp caps, resets []res
 		} else {
 			res.Evals++
 			res.Count("source_conservation_checked", 1)
+			if d, derr := sq.DumpBytes(src, scratch, false); derr == nil && d.LockRows > 0 {
+				res.Evals++
+				res.Violate("lock-table-not-empty", "%s: after the run the bookkeeping table _litestream_lock of the source holds %d committed row(s): one of litestream's lock-promotion inserts was committed instead of rolled back%s", tag, d.LockRows, root)
+			} else if derr == nil {
+				res.Evals++
+				res.Count("lock_table_checked_empty", 1)
+			}
 			k, why := led.consistent(src)
 			switch {
 			case why != "":
